@@ -59,8 +59,11 @@ func DefaultWorldSpec() WorldSpec {
 
 // BuildWorld creates the world and applies the setup prefix. Everything after this
 // goes through signed transactions in committed blocks.
-func BuildWorld(spec WorldSpec) (*World, error) {
-	w := NewWorld(spec.Scenario)
+func BuildWorld(spec WorldSpec) (*World, error) { return BuildWorldOn(spec, "") }
+
+// BuildWorldOn builds the world on a goleveldb database in diskDir (see NewWorldOn).
+func BuildWorldOn(spec WorldSpec, diskDir string) (*World, error) {
+	w := NewWorldOn(spec.Scenario, diskDir)
 	ctx := w.SetupCtx()
 	app := w.App
 	// oracle asset infos + prices + feeder
